@@ -282,6 +282,14 @@ func (t *TypeSpec) yaml(ind string) string {
 		for _, f := range t.Fields {
 			b.WriteString(f.yaml(ind + "    "))
 		}
+	case "constunion":
+		p("kind: disjunction")
+		p("disjunction:")
+		p("  branches:")
+		for _, v := range t.Values {
+			p("    - kind: scalar")
+			p("      scalar: {scalar_kind: string, value: %s}", yq(v))
+		}
 	case "enum":
 		p("kind: enum")
 		p("enum:")
@@ -661,6 +669,12 @@ func typeSpecToAST(t *TypeSpec) (ast.Type, error) {
 			st.Fields = append(st.Fields, af)
 		}
 		out.Kind, out.Struct = ast.KindStruct, st
+	case "constunion":
+		dj := &ast.DisjunctionType{}
+		for _, v := range t.Values {
+			dj.Branches = append(dj.Branches, ast.Type{Kind: ast.KindScalar, Scalar: &ast.ScalarType{ScalarKind: ast.KindString, Value: v}})
+		}
+		out.Kind, out.Disjunction = ast.KindDisjunction, dj
 	case "enum":
 		en := &ast.EnumType{}
 		for _, v := range t.Values {
